@@ -2,6 +2,8 @@ import WzVerif.Driver.Proto
 import WzVerif.Model.Url
 import WzVerif.Model.UrlSplit
 import WzVerif.Model.UrlEnviron
+import WzVerif.Model.UrlBuilder
+import WzVerif.Model.UrlProxyFix
 namespace Wz.Driver.C15
 open Wz Wz.Proto Wz.Url
 
@@ -42,7 +44,81 @@ def exc (r : Except String String) : String :=
   | .ok s => s
   | .error e => "EXC:" ++ e
 
+/-- `k=v;k=v` (hex), `[]` for the empty list -/
+def outPairs (l : List (Str × Str)) : String :=
+  if l.isEmpty then "[]" else ";".intercalate (l.map fun (k, v) => hexStr k ++ "=" ++ hexStr v)
+
+def pairsArg (s : String) : Option (List (Str × Str)) :=
+  if s == "[]" then some [] else
+    (s.splitOn ";").mapM fun kv =>
+      match kv.splitOn "=" with
+      | [k, v] => do pure ((← unhexStr k), (← unhexStr v))
+      | _ => none
+
+/-- `~` | `s:<hex>` | `m:<pairs>` -/
+def queryArg (s : String) : Option QueryArg :=
+  if s == "~" then some .absent
+  else if s.startsWith "s:" then (unhexStr (s.drop 2).copy).map .text
+  else if s.startsWith "m:" then (pairsArg (s.drop 2).copy).map .items
+  else none
+
+def listArg (s : String) : Option (Option (List Str)) :=
+  if s == "~" then some none
+  else if s == "[]" then some (some [])
+  else ((s.splitOn ",").mapM unhexStr).map some
+
+def excE (r : Except String String) : String :=
+  match r with
+  | .ok s => s
+  | .error e => "EXC:" ++ e
+
+/-- everything the streams compare for one builder: environ keys | builder properties | request -/
+def builderReport (o : UrlOpaque) (b : Builder) : Except String String := do
+  let e := b.environ
+  let r ← requestView o e.toEnviron
+  let (u1, u2, u3, u4) ← requestUrls o e.toEnviron
+  let args := match requestArgs e.toEnviron with | some l => outPairs l | none => "EXC:UnicodeEncodeError"
+  let fp := match requestFullPath e.toEnviron with | some s => hexStr s | none => "EXC:UnicodeEncodeError"
+  pure (",".intercalate [hexStr e.pathInfo, hexStr e.scriptName, hexStr e.queryString, hexStr e.httpHost,
+      hexStr e.urlScheme, hexStr e.requestUri, hexStr e.rawUri, hexStr e.serverName, hexStr e.serverPort]
+    ++ "|" ++ ",".intercalate [hexStr b.queryText,
+        (match b.argsProp with | .ok l => outPairs l | .error x => "EXC:" ++ x), hexStr b.baseUrl]
+    ++ "|" ++ ",".intercalate [hexStr r.path, hexStr r.rootPath, hexStr r.host, hexStr u1, hexStr u2, hexStr u3,
+        hexStr u4, fp, args])
+
 def handle : Handler
+  -- builder <path> <base|~> <query> <raw host of base> <its IDNA form|~> <raw host of HTTP_HOST> <decoded|~> <bracketOk> <nfkcOk> <fromenv 0|1>
+  | "builder", [path, base, q, ra, ca, ru, cu, bo, no, fe] =>
+    match unhexStr path, optArg unhexStr base, queryArg q, unhexStr ra, optArg unhexStr ca, unhexStr ru,
+        optArg unhexStr cu, boolArg bo, boolArg no, boolArg fe with
+    | some path, some base, some q, some ra, some ca, some ru, some cu, some bo, some no, some fe =>
+      let o : UrlOpaque :=
+        { bracketOk := fun _ => bo, nfkcOk := fun _ => no,
+          hostToAscii := fun h => if h == ra then ca else if h == ru then some ru else none,
+          hostToUnicode := fun h => if h == ru then cu else none }
+      some (excE (do
+        let b ← builderInit o path base q
+        let b ← if fe then fromEnviron o b.environ.toEnviron else pure b
+        builderReport o b))
+    | _, _, _, _, _, _, _, _, _, _ => some badArgs
+  | "gethost", [scheme, host] =>
+    match unhexStr scheme, unhexStr host with
+    | some scheme, some host => some (hexStr (getHost scheme host))
+    | _, _ => some badArgs
+  -- proxyfix <x_for> <x_proto> <x_host> <x_port> <x_prefix> <REMOTE_ADDR|~> <scheme> <HTTP_HOST|~> <SERVER_NAME> <SERVER_PORT> <SCRIPT_NAME> <PATH_INFO> <5 header value lists>
+  | "proxyfix", [xf, xp, xh, xo, xx, ra, sch, hh, sn, sp, scr, pi, hf, hp, hho, hpo, hpx] =>
+    match natArg xf, natArg xp, natArg xh, natArg xo, natArg xx, optArg unhexStr ra, unhexStr sch,
+        optArg unhexStr hh, unhexStr sn, unhexStr sp, unhexStr scr, unhexStr pi with
+    | some xf, some xp, some xh, some xo, some xx, some ra, some sch, some hh, some sn, some sp, some scr, some pi =>
+      match listArg hf, listArg hp, listArg hho, listArg hpo, listArg hpx with
+      | some hf, some hp, some hho, some hpo, some hpx =>
+        let r := proxyFix ⟨xf, xp, xh, xo, xx⟩ ⟨hf, hp, hho, hpo, hpx⟩
+          { remoteAddr := ra, urlScheme := sch, httpHost := hh, serverName := sn, serverPort := sp,
+            scriptName := scr, pathInfo := pi }
+        some (",".intercalate [outOpt hexStr r.remoteAddr, hexStr r.urlScheme, outOpt hexStr r.httpHost,
+          hexStr r.serverName, hexStr r.serverPort, hexStr r.scriptName, hexStr r.pathInfo])
+      | _, _, _, _, _ => some badArgs
+    | _, _, _, _, _, _, _, _, _, _, _, _ => some badArgs
   | "urlsplit", [url, b, n] =>
     match unhexStr url, boolArg b, boolArg n with
     | some url, some b, some n =>
